@@ -255,9 +255,22 @@ theorem runWriter_open (me : Bytes) (st : FS) (evs : List Ev) (ho : st.writeEOF 
 
 /-! ### reader -/
 
-/-- The reader state is in step with the frame sequence still to come on the connection. -/
+/-- What may follow the last complete frame on a connection that ends (or fails) there: nothing, or the
+beginning of a frame cut off inside its header or payload.  The decoder fails on it with the error the
+ending calls for (a close for `eof`, a transport error for `err`) and leaves nothing. -/
+def Junk (junk : Bytes) (tl : Tail) : Prop :=
+  ∃ e, (parseFrame junk tl).1 = .fail e ∧ (parseFrame junk tl).2.1 = [] ∧ closedErr e = (tl == .eof)
+
+theorem junk_nil (tl : Tail) : Junk [] tl := by
+  cases tl
+  · exact ⟨.eof, by simp [parseFrame, crossnode.FrameHeaderSize], by simp [parseFrame, crossnode.FrameHeaderSize], rfl⟩
+  · exact ⟨.header .err, by simp [parseFrame, crossnode.FrameHeaderSize],
+      by simp [parseFrame, crossnode.FrameHeaderSize], rfl⟩
+
+/-- The reader state is in step with the frame sequence still to come on the connection
+(complete frames `fs`, then possibly a cut-off frame). -/
 structure Inv (st : FS) (fs : List Frame) (tl : Tail) : Prop where
-  flat : st.conn.flat = encodeAll fs
+  flat : ∃ junk, st.conn.flat = encodeAll fs ++ junk ∧ Junk junk tl
   tail : st.conn.tail = tl
   wf : ∀ f ∈ fs, f.WF
   reof : st.readEOF = false
@@ -300,24 +313,24 @@ theorem ReadPost_weaken {tl id weof br E T n p r st'} (Q : Prop) (h : ReadPost t
   | err e => exact h
   | fuel => exact h
 
-theorem readFrame_nil (s : Src) (h : s.flat = []) :
-    (readFrame s).out = .fail (if s.tail == .eof then .eof else .header s.tail) ∧
-    (readFrame s).rest.flat = [] ∧ (readFrame s).rest.tail = s.tail := by
+theorem readFrame_junk (s : Src) (junk : Bytes) (hj : Junk junk s.tail) (h : s.flat = junk) :
+    ∃ e, (readFrame s).out = .fail e ∧ closedErr e = (s.tail == .eof) := by
+  obtain ⟨h1, -, -, -⟩ := readFrame_flat s
+  obtain ⟨e, e1, -, e3⟩ := hj
+  rw [h, e1] at h1
+  exact ⟨e, h1, e3⟩
+
+theorem readFrame_cons (s : Src) (f : Frame) (fs : List Frame) (junk : Bytes) (hf : f.WF)
+    (h : s.flat = encodeAll (f :: fs) ++ junk) :
+    (readFrame s).out = .frame f ∧ (readFrame s).rest.flat = encodeAll fs ++ junk ∧
+      (readFrame s).rest.tail = s.tail := by
   obtain ⟨h1, h2, -, h4⟩ := readFrame_flat s
-  have hp : parseFrame [] s.tail =
-      (.fail (if s.tail == .eof then .eof else .header s.tail), [], crossnode.FrameHeaderSize) := by
-    simp [parseFrame, crossnode.FrameHeaderSize]
-  rw [h, hp] at h1 h2
+  rw [h, encodeAll_cons, List.append_assoc, parse_encode f hf] at h1 h2
   exact ⟨h1, h2, h4⟩
 
-theorem readFrame_cons (s : Src) (f : Frame) (fs : List Frame) (hf : f.WF) (h : s.flat = encodeAll (f :: fs)) :
-    (readFrame s).out = .frame f ∧ (readFrame s).rest.flat = encodeAll fs ∧ (readFrame s).rest.tail = s.tail := by
-  obtain ⟨h1, h2, -, h4⟩ := readFrame_flat s
-  rw [h, encodeAll_cons, parse_encode f hf] at h1 h2
-  exact ⟨h1, h2, h4⟩
-
-theorem nextFrame_spec (trk : Tracker) (tl : Tail) (fs : List Frame) (st : FS) (k p : Nat)
-    (hflat : st.conn.flat = encodeAll fs) (htail : st.conn.tail = tl) (hwf : ∀ f ∈ fs, f.WF)
+theorem nextFrame_spec (trk : Tracker) (tl : Tail) (junk : Bytes) (hj : Junk junk tl)
+    (fs : List Frame) (st : FS) (k p : Nat)
+    (hflat : st.conn.flat = encodeAll fs ++ junk) (htail : st.conn.tail = tl) (hwf : ∀ f ∈ fs, f.WF)
     (hre : st.readEOF = false) (hk : fs.length < k) :
     ReadPost tl True st.tunnelID st.writeEOF st.broken (deliver st.tunnelID fs).1 (deliver st.tunnelID fs).2
       fs.length p (nextFrame trk k st p).1 (nextFrame trk k st p).2 := by
@@ -326,15 +339,16 @@ theorem nextFrame_spec (trk : Tracker) (tl : Tail) (fs : List Frame) (st : FS) (
     cases k with
     | zero => omega
     | succ k =>
-      obtain ⟨h1, -, -⟩ := readFrame_nil st.conn (by simpa [encodeAll] using hflat)
-      rw [htail] at h1
+      obtain ⟨e, h1, h1c⟩ := readFrame_junk st.conn junk (htail ▸ hj) (by simpa [encodeAll] using hflat)
+      rw [htail] at h1c
       cases tl with
       | eof =>
-        simp only [nextFrame, h1, beq_self_eq_true, if_true, closedErr, ReadPost, deliver]
+        have hc : closedErr e = true := h1c
+        simp only [nextFrame, h1, hc, if_true, ReadPost, deliver]
         simp
       | err =>
-        have : (Tail.err == Tail.eof) = false := rfl
-        simp only [nextFrame, h1, this, Bool.false_eq_true, if_false, closedErr, ReadPost, deliver]
+        have hc : closedErr e = false := h1c
+        simp only [nextFrame, h1, hc, Bool.false_eq_true, if_false, ReadPost, deliver]
         simp
   | cons f fs ih =>
     cases k with
@@ -343,7 +357,7 @@ theorem nextFrame_spec (trk : Tracker) (tl : Tail) (fs : List Frame) (st : FS) (
       have hf := hwf f (List.mem_cons_self ..)
       have hfs : ∀ g ∈ fs, g.WF := fun g hg => hwf g (List.mem_cons_of_mem _ hg)
       have hk' : fs.length < k := by simp at hk; omega
-      obtain ⟨h1, h2, h3⟩ := readFrame_cons st.conn f fs hf hflat
+      obtain ⟨h1, h2, h3⟩ := readFrame_cons st.conn f fs junk hf hflat
       have hrec := ih { st with conn := (readFrame st.conn).rest } k h2 (by rw [h3, htail]) hfs hre hk'
       simp only at hrec
       have hskip : ReadPost tl True st.tunnelID st.writeEOF st.broken (deliver st.tunnelID fs).1
@@ -378,14 +392,14 @@ theorem nextFrame_spec (trk : Tracker) (tl : Tail) (fs : List Frame) (st : FS) (
             · exact (List.take_prefix p f.data).trans (List.prefix_append _ _)
             · by_cases hfull : min p f.data.length ≥ f.data.length
               · simp only [hfull, if_true]
-                refine ⟨trivial, trivial, trivial, fs, ⟨h2, by rw [h3, htail], hfs, hre⟩, by simp, ?_, rfl,
+                refine ⟨trivial, trivial, trivial, fs, ⟨⟨junk, h2, hj⟩, by rw [h3, htail], hfs, hre⟩, by simp, ?_, rfl,
                   fun _ => ⟨by simp, fun _ => by simp⟩⟩
                 have hl : (f.data.take p).length = f.data.length := by
                   rw [List.length_take]; omega
                 simp only [pend, List.drop_nil, List.nil_append, hl, List.drop_left']
               · simp only [hfull, if_false]
                 have hlt : p < f.data.length := by omega
-                refine ⟨trivial, trivial, trivial, fs, ⟨h2, by rw [h3, htail], hfs, hre⟩, by simp, ?_, rfl,
+                refine ⟨trivial, trivial, trivial, fs, ⟨⟨junk, h2, hj⟩, by rw [h3, htail], hfs, hre⟩, by simp, ?_, rfl,
                   fun _ => ⟨by simp, fun hp => absurd (Nat.lt_of_lt_of_le hlt hf.2.2) (Nat.not_lt.mpr hp)⟩⟩
                 have hl : (f.data.take p).length = p := by
                   rw [List.length_take]; omega
@@ -453,7 +467,8 @@ theorem read_spec (trk : Tracker) (tl : Tail) (fs : List Frame) (st : FS) (fuel 
         rw [List.drop_append_of_le_length hple, List.drop_drop]
   · simp only [hbuf, if_false]
     have he : st.readBuf.drop st.readOff = [] := List.drop_of_length_le (Nat.le_of_not_lt hbuf)
-    have := nextFrame_spec trk tl fs st fuel p hinv.flat hinv.tail hinv.wf hinv.reof hk
+    obtain ⟨junk, hfl, hj⟩ := hinv.flat
+    have := nextFrame_spec trk tl junk hj fs st fuel p hfl hinv.tail hinv.wf hinv.reof hk
     simpa [pend, he] using this
 
 theorem readLoop_eof (trk : Tracker) (fuel : Nat) (st : FS) (ps : List Nat) (h : st.readEOF = true) :
@@ -687,6 +702,102 @@ theorem checkReads_prefix (eofOk errOk : Bool) (exp : Bytes) (ps : List Nat) (rs
         have hr : rs = [] := by simpa using h3
         subst he hr
         simp [delivered]
+      | fuel => simp [checkReads] at h
+
+/-! ### a connection cut at an arbitrary offset -/
+
+theorem junk_prefix (f : Frame) (hwf : f.WF) (j : Nat) (hj : j < (encode f).length) (tl : Tail) :
+    Junk ((encode f).take j) tl := by
+  obtain ⟨hid, hty, hlen⟩ := hwf
+  have hhl := header_length f.id f.ty f.data.length hid
+  by_cases hs : j < crossnode.FrameHeaderSize
+  · -- cut inside the header
+    have hl : ((encode f).take j).length = j := by rw [List.length_take]; omega
+    have hlt : ((encode f).take j).length < crossnode.FrameHeaderSize := by rw [hl]; exact hs
+    generalize (encode f).take j = part at hlt
+    clear hl
+    cases tl with
+    | eof =>
+      by_cases he : part.isEmpty
+      · exact ⟨.eof, by simp [parseFrame, hlt, he], by simp [parseFrame, hlt], rfl⟩
+      · exact ⟨.header .eof, by simp [parseFrame, hlt, he], by simp [parseFrame, hlt], rfl⟩
+    | err =>
+      exact ⟨.header .err, by simp [parseFrame, hlt], by simp [parseFrame, hlt], rfl⟩
+  · -- cut inside the payload
+    have hge : crossnode.FrameHeaderSize ≤ j := Nat.le_of_not_lt hs
+    have hel : (encode f).length = crossnode.FrameHeaderSize + f.data.length := encode_length f hid
+    have e : (encode f).take j = header f.id f.ty f.data.length ++ f.data.take (j - crossnode.FrameHeaderSize) := by
+      unfold encode
+      rw [List.take_append, hhl, List.take_of_length_le (by rw [hhl]; exact hge)]
+    have hnl : ¬ ((encode f).take j).length < crossnode.FrameHeaderSize := by
+      rw [List.length_take]; omega
+    have htake : ((encode f).take j).take crossnode.FrameHeaderSize = header f.id f.ty f.data.length := by
+      rw [e, ← hhl, List.take_left']; rfl
+    have hdrop : ((encode f).take j).drop crossnode.FrameHeaderSize = f.data.take (j - crossnode.FrameHeaderSize) := by
+      rw [e, ← hhl, List.drop_left']; rfl
+    have hun : unbe32 ((header f.id f.ty f.data.length).drop (idLen + 1)) = f.data.length := by
+      rw [header_drop _ _ _ hid, unbe32_be32 _ (Nat.lt_of_le_of_lt hlen max_lt)]
+    have h1 : ¬ f.data.length > crossnode.MaxFrameSize := Nat.not_lt.mpr hlen
+    have h2 : (f.data.take (j - crossnode.FrameHeaderSize)).length < f.data.length := by
+      rw [List.length_take]; omega
+    refine ⟨.data tl, ?_, ?_, by cases tl <;> rfl⟩
+    · unfold parseFrame
+      simp only [hnl, if_false, htake, hdrop, hun, h1, h2, if_true]
+    · unfold parseFrame
+      simp only [hnl, if_false, htake, hdrop, hun, h1, h2, if_true]
+
+/-- A prefix of a sequence of encoded frames is a sequence of complete frames followed by a cut-off one. -/
+theorem take_encodeAll (fs : List Frame) (hwf : ∀ f ∈ fs, f.WF) (k : Nat) (tl : Tail) :
+    ∃ fs' junk, (encodeAll fs).take k = encodeAll fs' ++ junk ∧ Junk junk tl ∧ fs' <+: fs := by
+  induction fs generalizing k with
+  | nil => exact ⟨[], [], by simp [encodeAll], junk_nil tl, List.prefix_refl _⟩
+  | cons f fs ih =>
+    have hf := hwf f (List.mem_cons_self ..)
+    have hfs : ∀ g ∈ fs, g.WF := fun g hg => hwf g (List.mem_cons_of_mem _ hg)
+    by_cases hk : (encode f).length ≤ k
+    · obtain ⟨fs', junk, h1, h2, h3⟩ := ih hfs (k - (encode f).length)
+      refine ⟨f :: fs', junk, ?_, h2, ?_⟩
+      · rw [encodeAll_cons, List.take_append, List.take_of_length_le hk, h1, encodeAll_cons, List.append_assoc]
+      · exact (List.prefix_cons_inj f).mpr h3
+    · have hlt : k < (encode f).length := Nat.lt_of_not_le hk
+      refine ⟨[], (encode f).take k, ?_, junk_prefix f hf k hlt tl, List.nil_prefix⟩
+      rw [encodeAll_cons, List.take_append_of_le_length (Nat.le_of_lt hlt)]
+      simp [encodeAll]
+
+theorem deliver_prefix (id : Bytes) (a b : List Frame) :
+    (deliver id a).1 <+: (deliver id (a ++ b)).1 := by
+  induction a with
+  | nil => simp [deliver]
+  | cons f a ih =>
+    simp only [List.cons_append, deliver]
+    split
+    · split
+      · exact (List.prefix_append_right_inj f.data).mpr ih
+      · split
+        · exact List.prefix_refl _
+        · exact ih
+    · exact ih
+
+theorem checkReads_shape (eofOk errOk : Bool) (exp : Bytes) (ps : List Nat) (rs : List RRes)
+    (h : checkReads eofOk errOk exp ps rs = true) : wellShaped ps rs = true := by
+  induction rs generalizing exp ps with
+  | nil => cases ps <;> rfl
+  | cons r rs ih =>
+    cases ps with
+    | nil => simp [checkReads] at h
+    | cons p ps =>
+      cases r with
+      | data d =>
+        simp only [checkReads, Bool.and_eq_true] at h
+        obtain ⟨⟨⟨h1, h2⟩, -⟩, h4⟩ := h
+        simp only [wellShaped, Bool.and_eq_true]
+        exact ⟨⟨h1, h2⟩, ih _ _ h4⟩
+      | eof =>
+        simp only [checkReads, Bool.and_eq_true] at h
+        simpa [wellShaped] using h.2
+      | err e =>
+        simp only [checkReads, Bool.and_eq_true] at h
+        simpa [wellShaped] using h.2
       | fuel => simp [checkReads] at h
 
 end Tunnox.C10
